@@ -17,6 +17,7 @@ this case is `data k` (so content identifies position); `I` = the constructor's 
   latestf <lb> <ub>             -> ok <cells>              | err IndexError
   probe                         -> P <lb> <ub> | window | read(lb-1,ub) | read(lb,ub+1) | read(lb+1,ub-1)
                                      | filled(lb-2,ub+1) | filled(lb-3,lb-1) | filled(ub+1,ub+3) | latestf(-2,0)
+  filledi / latestfi / probei   : the same with the constructor's own fill value as the fill (cells print I)
   orig-inval <i>, orig-filled <lb> <ub> : the two operations as found in the repository.
 -/
 namespace Psi.Driver.Buffer
@@ -54,14 +55,14 @@ structure DState where
 
 def bounds (s : State Cell) : String := s!"{samplesLb s} {samplesUb s}"
 
-def probe (s : State Cell) : String :=
+def probe (s : State Cell) (pad : Cell := .pad) : String :=
   let lb := samplesLb s
   let ub := samplesUb s
   " | ".intercalate
     [s!"P {lb} {ub}", showRead' (window s), showRead' (rangeSamples s (lb - 1) ub),
      showRead' (rangeSamples s lb (ub + 1)), showRead' (rangeSamples s (lb + 1) (ub - 1)),
-     showRead' (rangeFilled s (lb - 2) (ub + 1) .pad), showRead' (rangeFilled s (lb - 3) (lb - 1) .pad),
-     showRead' (rangeFilled s (ub + 1) (ub + 3) .pad), showRead' (latest s (-2) 0 (some .pad))]
+     showRead' (rangeFilled s (lb - 2) (ub + 1) pad), showRead' (rangeFilled s (lb - 3) (lb - 1) pad),
+     showRead' (rangeFilled s (ub + 1) (ub + 3) pad), showRead' (latest s (-2) 0 (some pad))]
 
 def step (d : DState) (ws : List String) : DState × String :=
   match ws, d.buf with
@@ -97,6 +98,7 @@ def step (d : DState) (ws : List String) : DState × String :=
   | ["bounds"], some s => (d, s!"ok {bounds s}")
   | ["window"], some s => (d, showRead (window s))
   | ["probe"], some s => (d, probe s)
+  | ["probei"], some s => (d, probe s .fillInit)   -- filled reads whose fill value IS the constructor's
   | [op, a, b], some s =>
     match parseInt? a, parseInt? b with
     | some a, some b =>
@@ -106,6 +108,8 @@ def step (d : DState) (ws : List String) : DState × String :=
       | "orig-filled" => (d, showRead (rangeFilledOrig s a b .pad))
       | "latest" => (d, showRead (latest s a b none))
       | "latestf" => (d, showRead (latest s a b (some .pad)))
+      | "filledi" => (d, showRead (rangeFilled s a b .fillInit))
+      | "latestfi" => (d, showRead (latest s a b (some .fillInit)))
       | _ => (d, "bad-op")
     | _, _ => (d, "bad-op")
   | _, _ => (d, "bad-op")
